@@ -66,7 +66,7 @@ func c12BatchSpecs() []*edt.Spec {
 		{
 			Pkg: "primitives/sr25519", Func: "(*BatchVerifier).VerifyBatchOnly", SymLoops: true, MinPaths: 4,
 			Vars:   map[string]string{"(len($v.entries) == 0)": "empty", "$v.anyInvalid": "anyInvalid", "isnil(ptr($rand))": "randNil"},
-			Ignore: []string{"((φL", "isnil(err("},
+			Ignore: []string{"((φL", "(φL", "isnil(err("},
 			Classify: func(p *edt.Path, out string, e *edt.Env) string {
 				switch {
 				case out == "false":
@@ -91,8 +91,8 @@ func c12BatchSpecs() []*edt.Spec {
 			Opaque:         []string{"BatchVerifier.VerifyBatchOnly", "RistrettoPoint.TripleScalarMulBasepointVartime", "RistrettoPoint.IsIdentity", "RistrettoPoint.Neg"},
 			Vars: map[string]string{
 				"(len($v.entries) == 0)": "empty", "$v.anyInvalid": "anyInvalid", "BatchVerifier.VerifyBatchOnly($rand)": "batchOK", "BatchVerifier.VerifyBatchOnly($v, $rand)": "batchOK",
-				"((φL0.0 + 1) < len($v.entries))": "initMore", "((φL1.1 + 1) < len($v.entries))": "serialMore",
-				"sel(havoc@L1(M<[]bool>#0), [(φL1.1 + 1)])": "admitted", "φL1.0": "allSoFar",
+				"(φL0.0 < len($v.entries))": "initMore", "(φL1.1 < len($v.entries))": "serialMore",
+				"sel(havoc@L1(M<[]bool>#0), [φL1.1])": "admitted", "φL1.0": "allSoFar",
 			},
 			Classify: func(p *edt.Path, out string, e *edt.Env) string {
 				switch {
@@ -131,16 +131,16 @@ func c12BatchSpecs() []*edt.Spec {
 					}
 					return false
 				}
-				const E = "$v.entries[(φL1.1 + 1)]"
+				const E = "$v.entries[φL1.1]"
 				const eq = "RistrettoPoint.IsIdentity(RistrettoPoint.TripleScalarMulBasepointVartime(" + E + ".hram, RistrettoPoint.Neg(" + E + ".A), " + E + ".S, " + E + ".R))"
 				switch class {
 				case "init":
-					return finalIs(p, ab, "M<[]bool>#0[(φL0.0 + 1)]", "$v.entries[(φL0.0 + 1)].canBeValid")
+					return finalIs(p, ab, "M<[]bool>#0[φL0.0]", "$v.entries[φL0.0].canBeValid")
 				case "serial", "serial-result":
 					if !has("loop L1: φL1.0 starts as not($v.anyInvalid)") {
 						return "the summary of the serial path must start from 'no entry was refused when it was added' (not from true): a batch with a refused entry is never all-valid"
 					}
-					if !has("loop L1: φL1.1 starts as -1") {
+					if !has("loop L1: φL1.1 starts as 0") {
 						return "serial verification must start at the first entry"
 					}
 					if class == "serial-result" {
@@ -162,12 +162,12 @@ func c12BatchSpecs() []*edt.Spec {
 						if args[0] != eq {
 							return "the summary must become the result of this entry's verification equation [hram](-A) + [S]B - R = 0: got " + clip(args[0], 200)
 						}
-						return finalIs(p, ab, "M<[]bool>#0[(φL1.1 + 1)]", eq)
+						return finalIs(p, ab, "M<[]bool>#0[φL1.1]", eq)
 					case e.V("allSoFar") == edt.F:
 						if args[0] != "false" {
 							return "a false summary must stay false"
 						}
-						return finalIs(p, ab, "M<[]bool>#0[(φL1.1 + 1)]", eq)
+						return finalIs(p, ab, "M<[]bool>#0[φL1.1]", eq)
 					}
 				}
 				return ""
